@@ -50,6 +50,30 @@ def gen_table_text(rng):
     return text, model
 
 
+def aligned_big_table(rng, shift):
+    """~300 KB of 'hex-id name [comment]' lines; for every power of two T in 4 KiB..256 KiB one line is padded with a
+    trailing comment so that it ends (newline included) exactly at offset T + shift."""
+    targets = [1 << k for k in range(12, 19)]
+    parts, model, length, i = [], {}, 0, 0
+    while targets or i < 100:
+        if not targets:
+            i += 1
+        ident = 0x2f000000 + 4 * len(model)
+        name = 'NAME_%d_%s' % (len(model), ''.join(rng.choice('abcdefXYZ') for _ in range(rng.randrange(1, 12))))
+        line = f'{ident:#x}\t{name}'
+        if targets and length + 2 * (len(line) + 1) + 4 > targets[0] + shift:
+            pad = targets[0] + shift - length - len(line) - 1
+            if pad >= 2:
+                line += '\t#' + 'c' * (pad - 2)
+            elif pad == 1:
+                line += ' '
+            targets.pop(0)
+        parts.append(line + '\n')
+        length += len(line) + 1
+        model[ident] = name
+    return ''.join(parts), model
+
+
 def table_texts(res, ctx, rng):
     from pykdebugparser.trace_codes import from_trace_codes_text
     for _ in range(ctx.pick(400, 60000)):
@@ -68,6 +92,34 @@ def table_texts(res, ctx, rng):
             res.violation('c19-reference-self-check', 'generator model and reference parser disagree', {'text': text})
         res.count('table_texts_compared')
         res.count('table_entries_compared', len(model))
+    # scale ladder: tables larger than any block a reader may use, with line ends placed exactly on / next to the
+    # powers of two from 4 KiB to 256 KiB (all in one table), through the text and the file entry points
+    if ctx.shard == 0:
+        import os
+        import tempfile
+        from pykdebugparser.trace_codes import from_trace_codes_file
+        for shift in (0, 1, -1) + ((2, -2, 7) if ctx.thorough else ()):
+            text, model = aligned_big_table(rng, shift)
+            res.case(text)
+            fd, path = tempfile.mkstemp(prefix='verif-c19-', suffix='.codes')
+            try:
+                with os.fdopen(fd, 'w', newline='') as f:
+                    f.write(text)
+                for how, load in (('text', lambda: from_trace_codes_text(text)), ('file', lambda: from_trace_codes_file(path))):
+                    try:
+                        got = dict(load())
+                    except Exception as x:
+                        res.violation(f'c19-text-raises-{core.exc_name(x)}', f'{x!r} on a table of {len(text)} characters '
+                                      f'({how})', {'text': text})
+                        continue
+                    if got != model:
+                        diff = [(hex(k), got.get(k), model.get(k)) for k in set(got) | set(model) if got.get(k) != model.get(k)][:4]
+                        res.violation('c19-text-mapping', f'table of {len(text)} characters / {len(model)} entries read as '
+                                      f'{how}: mapping differs from the reference on {diff}', {'text': text})
+                        continue
+                    res.count('large_aligned_tables_compared')
+            finally:
+                os.unlink(path)
     # the bundled file through both parsers
     import os
     with open(os.path.join(core.REPO, 'pykdebugparser', 'trace.codes')) as fd:
@@ -102,6 +154,37 @@ def front(data, table, what):
         return [(t.ktraces[0].eventid, str(t)) for t in p.traces(io.BytesIO(data), table)]
     if what == 'callstacks':
         return [(c.tid, [(f.address, f.offset) for f in c.frames]) for c in p.callstacks(io.BytesIO(data), table)]
+    p.show_tid = False
+    if what == 'formatted_traces':
+        return list(p.formatted_traces(io.BytesIO(data), table))
+    if what == 'formatted_callstacks':
+        return list(p.formatted_callstacks(io.BytesIO(data), table))
+
+
+def entry_points_agree(res, data, table, label, case):
+    """Every public method that takes a table honours it: the formatted listings are the renderings of what the raw
+    methods return under the same table."""
+    try:
+        trs = front(data, table, 'traces')
+        ftr = front(data, table, 'formatted_traces')
+        cs = front(data, table, 'callstacks')
+        fcs = front(data, table, 'formatted_callstacks')
+    except Exception as x:
+        res.violation(f'c19-entry-point-raises-{core.exc_name(x)}', f'{label}: {x!r}', case)
+        return False
+    res.count('entry_point_comparisons')
+    res.count('callstacks_seen_under_supplied_tables', len(cs))
+    if ftr != [t[1] for t in trs]:
+        k = next((i for i, (a, b) in enumerate(zip(ftr, trs)) if a != b[1]), min(len(ftr), len(trs)))
+        res.violation('c19-formatted-traces-ignore-the-table', f'{label}: formatted_traces gives {len(ftr)} lines, traces '
+                      f'{len(trs)} under the same supplied table; first difference at {k}: '
+                      f'{ftr[k] if k < len(ftr) else None!r} vs {trs[k][1] if k < len(trs) else None!r}', case)
+        return False
+    if len(fcs) != len(cs) or any(l.count('\n') != len(c[1]) for l, c in zip(fcs, cs)):
+        res.violation('c19-formatted-callstacks-ignore-the-table', f'{label}: formatted_callstacks gives {len(fcs)} stacks, '
+                      f'callstacks {len(cs)} under the same supplied table', case)
+        return False
+    return True
 
 
 def dumps(res, ctx, rng):
@@ -151,6 +234,8 @@ def dumps(res, ctx, rng):
         if leaked:
             res.violation('c19-removed-id-decoded', f'id {hex(leaked[0][0])} is absent from the supplied table but was decoded: '
                           f'{leaked[0][1]!r}', dict(case, removed=sorted(removed)))
+            continue
+        if not entry_points_agree(res, data, reduced, f'{len(removed)} ids removed', dict(case, removed=sorted(removed))):
             continue
         res.count('reduced_tables_checked')
         # a supplied table that also holds ids with qualifier bits set (legal table text): events are looked up by their
@@ -226,6 +311,8 @@ def dumps(res, ctx, rng):
         if cs1 != cs2:
             res.violation('c19-reassigned-ids-callstacks', 'callstacks differ under a re-assigned table', case)
             continue
+        if not entry_points_agree(res, data2, table2, 're-assigned ids', dict(case, file2=data2)):
+            continue
         res.count('reassigned_tables_checked')
         res.count('traces_compared_under_reassignment', len(base_traces))
 
@@ -246,6 +333,9 @@ def run(ctx):
     res.require('reassigned_tables_checked', 5)
     res.require('in_place_edits_checked', 5)
     res.require('tables_with_qualifier_bit_ids_checked', 5)
+    res.require('entry_point_comparisons', 10)
+    res.require('large_aligned_tables_compared', 6)
+    res.require('callstacks_seen_under_supplied_tables', 1)
     return res
 
 
